@@ -5,7 +5,7 @@
 (* property's quantifier; the harness draws concrete representatives of    *)
 (* each element.  TLC writes the sets as JSON (ASSUME at the end).         *)
 (***************************************************************************)
-EXTENDS Json, IOUtils, TLC, Sequences, Integers, FiniteSets
+EXTENDS Json, IOUtils, TLC, Defects
 
 \* C18: model classes, incl. 1L/2L cancellation and new-physics scale near the muon mass
 C18Cases ==
@@ -21,10 +21,13 @@ C07Cases == {"generic", "hightb", "compressed"}
 \* C15: the full cross product of GM2CalcConfig options (480 vectors)
 C15Opts == [fmt : 0..4, loop : 0..2, tb : BOOLEAN, force : BOOLEAN, verbose : BOOLEAN, unc : BOOLEAN, running : BOOLEAN]
 
+\* C16: all defect sets of size <= 2 per model (Defects.tla), as sequences for JSON
+C16Sets == [mssm |-> DefectSets("mssm"), thdm |-> DefectSets("thdm")]
+
 VARIABLE x
 Init == x = 0
 Next == UNCHANGED x
 Spec == Init /\ [][Next]_x
 
-ASSUME JsonSerialize(IOEnv.GEN_OUT, [C18 |-> C18Cases, C06 |-> C06Cases, C07 |-> C07Cases, C15 |-> C15Opts])
+ASSUME JsonSerialize(IOEnv.GEN_OUT, [C18 |-> C18Cases, C06 |-> C06Cases, C07 |-> C07Cases, C15 |-> C15Opts, C16 |-> C16Sets])
 =============================================================================
